@@ -148,6 +148,15 @@ func (fx *FuncExec) execCallInner(st *State, instr ssa.Instruction, c *ssa.CallC
 	if st.called == nil {
 		st.called = map[string]string{}
 	}
+	prevCalled, hadPrev := st.called[short]
+	if !hadPrev {
+		prevCalled = "false"
+	}
+	fx.curCallShort, fx.curCallPrev = short, prevCalled
+	defer func() { fx.curCallShort, fx.curCallPrev = "", "" }()
+	if fx.callLog != nil {
+		fx.callLog[short] = true
+	}
 	st.called[short] = "true"
 	if st.calledIter == nil {
 		st.calledIter = map[string]string{}
